@@ -229,3 +229,34 @@ def collect_tree(rng, D, with_div=True, with_pow=False, with_const=False, depth=
         return acc
 
     return level(depth)
+
+
+# ---------------------------------------------------------------- strings that stress sub-expression sharing in the parser
+SHARE_OPS = {"+": ADD, "-": SUB, "*": MUL, "/": DIV, "**": POW}
+
+
+def share_expr(rng, depth, atoms=None):
+    """(text, tree) over very few atoms, so that the same operands meet the same (also non-commutative) operator in both
+    orders and repeated sub-expressions abound; text is fully parenthesised infix in bingo/sympy syntax; tree as tree_to_stack"""
+    atoms = atoms or [("X_0", ("x", 0)), ("X_1", ("x", 1)), ("2", ("i", 2)), ("3", ("i", 3))]
+
+    def sp(op):
+        # sympy and bingo print binary + and - with surrounding blanks (a "-" glued to "(" is read as a unary minus)
+        return f" {op} " if op in "+-" else op
+
+    def go(d):
+        if d <= 0 or rng.random() < 0.2:
+            return rng.choice(atoms)
+        r = rng.random()
+        if r < 0.12:
+            f, node = rng.choice([("sin", SIN), ("cos", COS), ("exp", EXP), ("sinh", SINH)])
+            t, tr = go(d - 1)
+            return f"{f}({t})", (node, tr)
+        op = rng.choice(["-", "-", "/", "/", "**", "+", "*"])
+        (ta, a), (tb, b) = go(d - 1), go(d - 1)
+        if rng.random() < 0.5:          # the mirrored pair next to it
+            op2 = rng.choice(["+", "-", "*"])
+            return (f"(({ta}){sp(op)}({tb})){sp(op2)}(({tb}){sp(op)}({ta}))", (SHARE_OPS[op2], (SHARE_OPS[op], a, b), (SHARE_OPS[op], b, a)))
+        return f"({ta}){sp(op)}({tb})", (SHARE_OPS[op], a, b)
+
+    return go(depth)
